@@ -493,13 +493,17 @@ func (m *Manager) NewServerStream(ctx context.Context) (stream *drpcstream.Strea
 
 			case drpcwire.KindInvoke:
 				rpc = string(pkt.Data)
-				m.pdone.Send()
 
 				if metaID == pkt.ID.Stream {
 					ctx = drpcmetadata.AddPairs(ctx, meta)
 				}
 
+				// only let the reader go on once the stream is registered: a
+				// packet that starts the next stream must find this one so
+				// that it is cancelled, instead of leaving it running with a
+				// reader that is blocked handing over the next invoke.
 				stream, err := m.newStream(ctx, pkt.ID.Stream, "srv", rpc)
+				m.pdone.Send()
 				return stream, rpc, err
 
 			default:
